@@ -45,7 +45,7 @@ theorem C09_no_panic (inp : Input) (h : WF09 inp = true) (N : List String) :
   simp only [TablesOk, Bool.and_eq_true, List.all_eq_true] at ht
   obtain ⟨⟨⟨hcD, hcS⟩, htTo⟩, htFrom⟩ := ht
   simp only [WF09, Bool.and_eq_true, Bool.not_eq_true', List.all_eq_true] at h
-  obtain ⟨⟨⟨⟨⟨⟨hs, hd⟩, hm⟩, _⟩, _⟩, _⟩, _⟩ := h
+  obtain ⟨⟨⟨⟨hs, hd⟩, hm⟩, _⟩, _⟩ := h
   have hctor := plan_plain_ctors inp hs hd
   have hm' : (inp.mapperPtr != some true || !hasFunc (plan inp).toStmts) = true ∧
       (inp.mapperPtr != some true || !hasFunc (plan inp).fromStmts) = true := by
